@@ -156,3 +156,101 @@ Proof.
   rewrite (bind_ok _ _ _ (Some (upd_fields a (set_keywords (a_fields a) ks)), EOther) _ (try_ok _ _ _ _ Inner)).
   exists s'. split; [reflexivity|split; assumption].
 Qed.
+
+(* ACCESSION (without region), VERSION and COMMENT: sub-parsers of the shape
+   sub_of (Map (genbankFieldParser name) setter) *)
+Lemma sub_generic_field name depth (setf : acc -> list byte -> acc) a l0 ls post o e ap fr k :
+  zlen name <= depth -> no_eol l0 -> Forall no_eol ls -> is_prefix (repeat_byte 32 depth) post = false ->
+  exists s', sub_of (fun a0 => pMap (generic_field_parser name depth) (fun '(p, _) => Ok (setf a0 p))) a
+               (mkst (name ++ repeat_byte 32 (depth - zlen name) ++
+                      (add_prefix (l0 ++ joined 10 ls) (repeat_byte 32 depth) ++ [10]) ++ post) o e ap (fr :: k)) =
+             (Ok (setf a (l0 ++ joined 10 ls), None), s') /\ rest s' = post /\ stk s' = fr :: k.
+Proof.
+  intros Hd H0 Hls Hp. unfold sub_of, pMap.
+  set (txt := name ++ repeat_byte 32 (depth - zlen name) ++ (add_prefix (l0 ++ joined 10 ls) (repeat_byte 32 depth) ++ [10]) ++ post).
+  destruct (generic_field_roundtrip name depth l0 ls post o e ap (txt, o, ap) (fr :: k) Hd H0 Hls Hp) as (s1 & E & R & S).
+  fold txt in E. destruct s1 as [r1 o1 e1 a1 k1]. cbn [rest stk] in R, S. subst r1 k1.
+  assert (Inner : (push;;; r <-- try (generic_field_parser name depth);;;
+                   match r with
+                   | (Some a1, _) => drop;;; lift ((fun '(p, _) => Ok (setf a p)) a1)
+                   | (None, k0) => pop;;; fail k0
+                   end) (mkst txt o e ap (fr :: k))
+                  = (Ok (setf a (l0 ++ joined 10 ls)), mkst post o1 e1 a1 (fr :: k))).
+  { rewrite (bind_ok _ _ _ tt _ (push_eq txt o e ap (fr :: k))).
+    rewrite (bind_ok _ _ _ (Some (l0 ++ joined 10 ls, 0), EOther) _ (try_ok _ _ _ _ E)).
+    rewrite (bind_ok _ _ _ tt _ (drop_ne post o1 e1 a1 (txt, o, ap) fr k)). reflexivity. }
+  rewrite (bind_ok _ _ _ (Some (setf a (l0 ++ joined 10 ls)), EOther) _ (try_ok _ _ _ _ Inner)).
+  eexists. split; [reflexivity|split; reflexivity].
+Qed.
+
+Theorem p_version_roundtrip depth a v post o e ap fr k :
+  zlen n_VERSION <= depth -> no_eol v -> is_prefix (repeat_byte 32 depth) post = false ->
+  exists s', p_version depth a
+               (mkst ((n_VERSION ++ repeat_byte 32 (depth - zlen n_VERSION) ++ v ++ [10]) ++ post) o e ap (fr :: k)) =
+             (Ok (upd_fields a (set_version (a_fields a) v), None), s') /\ rest s' = post /\ stk s' = fr :: k.
+Proof.
+  intros Hd Hv Hp.
+  destruct (sub_generic_field n_VERSION depth (fun a0 p => upd_fields a0 (set_version (a_fields a0) p)) a v [] post o e ap fr k
+              Hd Hv ltac:(constructor) Hp) as (s' & E & R & S).
+  exists s'. split; [|split; assumption].
+  unfold joined in E. cbn [map concat] in E. rewrite app_nil_r in E. rewrite (add_prefix_noeol v _ Hv) in E.
+  unfold p_version. rewrite <- E. f_equal. f_equal. rewrite <- !app_assoc. reflexivity.
+Qed.
+
+Theorem p_comment_roundtrip depth a l0 ls post o e ap fr k :
+  zlen n_COMMENT <= depth -> no_eol l0 -> Forall no_eol ls -> is_prefix (repeat_byte 32 depth) post = false ->
+  exists s', p_comment depth a
+               (mkst (n_COMMENT ++ repeat_byte 32 (depth - zlen n_COMMENT) ++
+                      (add_prefix (l0 ++ joined 10 ls) (repeat_byte 32 depth) ++ [10]) ++ post) o e ap (fr :: k)) =
+             (Ok (upd_fields a (add_comment (a_fields a) (l0 ++ joined 10 ls)), None), s') /\ rest s' = post /\ stk s' = fr :: k.
+Proof.
+  intros Hd H0 Hls Hp.
+  exact (sub_generic_field n_COMMENT depth (fun a0 p => upd_fields a0 (add_comment (a_fields a0) p)) a l0 ls post o e ap fr k Hd H0 Hls Hp).
+Qed.
+
+(* DEFINITION: written with a final period, which the sub-parser takes off *)
+Lemma joined_snoc ls l : joined 10 (ls ++ [l]) = joined 10 ls ++ 10 :: l.
+Proof. unfold joined. rewrite map_app, concat_app. cbn [map concat]. now rewrite app_nil_r. Qed.
+
+Theorem p_definition_roundtrip depth a l0 ls post o e ap fr k :
+  zlen n_DEFINITION <= depth -> no_eol l0 -> Forall no_eol ls -> is_prefix (repeat_byte 32 depth) post = false ->
+  let d := l0 ++ joined 10 ls in
+  exists s', p_definition depth a
+               (mkst (n_DEFINITION ++ repeat_byte 32 (depth - zlen n_DEFINITION) ++
+                      (add_prefix (d ++ [46]) (repeat_byte 32 depth) ++ [10]) ++ post) o e ap (fr :: k)) =
+             (Ok (upd_fields a (set_definition (a_fields a) d), None), s') /\ rest s' = post /\ stk s' = fr :: k.
+Proof.
+  intros Hd H0 Hls Hp d.
+  (* the lines of d ++ "." *)
+  assert (Hlines : exists m0 ms, no_eol m0 /\ Forall no_eol ms /\ d ++ [46] = m0 ++ joined 10 ms).
+  { assert (Hcase : ls = [] \/ exists init lst, ls = init ++ [lst]).
+    { destruct ls as [|x t]; [left; reflexivity|right]. destruct (exists_last (l:=x :: t) ltac:(discriminate)) as (init & lst & E0). exists init, lst. exact E0. }
+    destruct Hcase as [->|(init & lst & ->)].
+    - exists (l0 ++ [46]), []. split; [|split; [constructor|]].
+      + unfold no_eol in *. apply Forall_app. split; [exact H0|]. constructor; [split; discriminate|constructor].
+      + unfold d, joined. cbn [map concat]. now rewrite !app_nil_r.
+    - apply Forall_app in Hls as [Hi Hl]. inversion Hl as [|? ? Hl1 _]; subst.
+      exists l0, (init ++ [lst ++ [46]]). split; [exact H0|]. split.
+      + apply Forall_app. split; [exact Hi|]. constructor; [|constructor].
+        unfold no_eol in *. apply Forall_app. split; [exact Hl1|]. constructor; [split; discriminate|constructor].
+      + unfold d. rewrite !joined_snoc. rewrite <- !app_assoc. cbn [app]. reflexivity. }
+  destruct Hlines as (m0 & ms & Hm0 & Hms & Ed).
+  destruct (sub_generic_field n_DEFINITION depth
+              (fun a0 p => match rev p with
+                           | [] => upd_fields a0 (set_definition (a_fields a0) [])
+                           | 46 :: r => upd_fields a0 (set_definition (a_fields a0) (rev r))
+                           | _ => a0 end) a m0 ms post o e ap fr k Hd Hm0 Hms Hp) as (s' & E & R & S).
+  (* p_definition maps through an out-valued function: redo the last step *)
+  clear E.
+  unfold p_definition, sub_of, pMap. rewrite Ed.
+  set (txt := n_DEFINITION ++ repeat_byte 32 (depth - zlen n_DEFINITION) ++ (add_prefix (m0 ++ joined 10 ms) (repeat_byte 32 depth) ++ [10]) ++ post).
+  destruct (generic_field_roundtrip n_DEFINITION depth m0 ms post o e ap (txt, o, ap) (fr :: k) Hd Hm0 Hms Hp) as (s1 & E1 & R1 & S1).
+  fold txt in E1. destruct s1 as [r1 o1 e1 a1 k1]. cbn [rest stk] in R1, S1. subst r1 k1.
+  rewrite (bind_ok _ _ _ (Some (upd_fields a (set_definition (a_fields a) d)), EOther) (mkst post o1 e1 a1 (fr :: k))).
+  - eexists. split; [reflexivity|split; reflexivity].
+  - apply try_ok.
+    rewrite (bind_ok _ _ _ tt _ (push_eq txt o e ap (fr :: k))).
+    rewrite (bind_ok _ _ _ (Some (m0 ++ joined 10 ms, 0), EOther) _ (try_ok _ _ _ _ E1)).
+    rewrite (bind_ok _ _ _ tt _ (drop_ne post o1 e1 a1 (txt, o, ap) fr k)).
+    rewrite <- Ed, rev_app_distr. cbn [rev app]. rewrite rev_involutive. reflexivity.
+Qed.
